@@ -491,9 +491,15 @@ def record_trace(exe, args, path, timeout=600, leaks=False):
     # leak detection belongs to C19's check only; everywhere else a sanitizer report means a memory error
     env["ASAN_OPTIONS"] = "detect_leaks=%d:abort_on_error=0:exitcode=1" % (1 if leaks else 0)
     env["UBSAN_OPTIONS"] = "print_stacktrace=1:halt_on_error=1"
+    class _Hung:
+        returncode = -999
+        stderr = "the recorder did not return within %d s: a call into the library does not terminate" % timeout
     with open(path, "w") as f:
-        r = subprocess.run([exe] + [str(a) for a in args], stdout=f, stderr=subprocess.PIPE, text=True, timeout=timeout,
-                           env=env)
+        try:
+            r = subprocess.run([exe] + [str(a) for a in args], stdout=f, stderr=subprocess.PIPE, text=True, timeout=timeout,
+                               env=env)
+        except subprocess.TimeoutExpired:
+            r = _Hung()            # (recorders finish in seconds; the limits are minutes: a hang, recorded like a crash)
     if r.returncode == 2:
         raise ModelFailure("recorder failed rc=%s: %s" % (r.returncode, r.stderr[-2000:]))
     if r.returncode != 0:
